@@ -148,7 +148,6 @@ thread_local! {
     static NET: RefCell<Option<Box<dyn FnMut(&str) -> Option<MemPipe>>>> = RefCell::new(None);
     static CHOICES: RefCell<ChoiceState> = RefCell::new(ChoiceState::default());
     static HTTP: RefCell<Option<Box<dyn FnMut(&reqwest::Request) -> HttpOutcome>>> = RefCell::new(None);
-    static CLIENT: RefCell<Option<reqwest::Client>> = RefCell::new(None);
     static HANDLERS: RefCell<BTreeMap<String, HandlerSnap>> = RefCell::new(BTreeMap::new());
     static SESSION: RefCell<Option<SessionSnap>> = RefCell::new(None);
 }
@@ -226,13 +225,11 @@ pub fn set_http(f: Option<Box<dyn FnMut(&reqwest::Request) -> HttpOutcome>>) {
     HTTP.with(|h| *h.borrow_mut() = f);
 }
 
-/// `reqwest::Client::new()` loads the TLS root store (~70 ms); one per thread is enough.
+/// `reqwest::Client::new()` loads the TLS root store (~100 ms); one per process is enough (the
+/// client is only used to build requests unless the seam answers `Pass`).
 pub(crate) fn cached_client() -> reqwest::Client {
-    CLIENT.with(|c| {
-        c.borrow_mut()
-            .get_or_insert_with(reqwest::Client::new)
-            .clone()
-    })
+    static CLIENT: std::sync::OnceLock<reqwest::Client> = std::sync::OnceLock::new();
+    CLIENT.get_or_init(reqwest::Client::new).clone()
 }
 
 pub(crate) fn http(client: reqwest::Client) -> HttpClient {
